@@ -26,7 +26,7 @@ C_LIGHT = 299792458.0
 
 def REQUIRED(tier):
     return ["kernel_direct", "filterbank_fold", "timeseries_fold", "pulse_train", "conservation_checks", "cell_count_checks", "gulp_identity_checks",
-            "regime:gulp<2*maxdelay", "regime:nbands_not_dividing", "regime:accel!=0", "regime:multi_block", "canary_audits", "regime:multi_file_input", "long_folds", "pulse_train_edge_bins", "regime:nbands>nchans", "regime:small_accel_long_fold", "subint_edge_folds", "regime:fold_after_a_failed_fold", "regime:series_header_carries_accel", "regime:file_header_carries_refdm", "fold_again_after_in_place_change"]
+            "regime:gulp<2*maxdelay", "regime:nbands_not_dividing", "regime:accel!=0", "regime:multi_block", "canary_audits", "regime:multi_file_input", "long_folds", "pulse_train_edge_bins", "regime:nbands>nchans", "regime:small_accel_long_fold", "subint_edge_folds", "regime:fold_after_a_failed_fold", "regime:series_header_carries_accel", "regime:file_header_carries_refdm", "fold_again_after_in_place_change", "data:all_zero_stretch_longer_than_a_read_block"]
 
 
 def cases(tier, seed):
@@ -206,6 +206,12 @@ def run_case(case, ctx):
     accel = float(rng.choice([0.0, 0.0, 1e3, -1e3, 5e4, -5e4]))
     fch1, foff = 1500.0, -float(rng.choice([1.0, 10.0, 25.0]))
     X = sigfile.random_samples(rng, N, nch, nbits, small=True)
+    if case["seed"] % 100003 % 5 == 2 and N >= 120:
+        # a stretch of samples that are zero in every channel (dropped packets, a blanked cal signal) longer than several read blocks:
+        # those samples are folded like any others (they lower the means of their cells and count as hits)
+        z0 = int(N // 4)
+        X[z0 : z0 + N // 2] = 0
+        ctx.count("data:all_zero_stretch_longer_than_a_read_block")
     Xf = X.astype(np.float64)
     frng = np.random.default_rng([case["seed"], 111])
     nfiles = int(frng.choice([1, 1, 2, 3]))
